@@ -45,7 +45,18 @@ Definition enc_event (e : event) : list Z :=
 
 Definition newest {A} (new old : list A) : list A := rev (firstn (length new - length old) new).
 
-Definition delta (s s' : state) : list (list Z) := map enc_event (newest (trace s') (trace s)).
+(** the tracing options frozen into the run arguments, reported with every initialise-run hook *)
+Definition is_init_run (e : event) : bool :=
+  match e with EvHook h => match h_hook h with HInitRun => true | _ => false end | _ => false end.
+Definition enc_flags (s s' : state) : list (list Z) :=
+  if existsb is_init_run (newest (trace s') (trace s)) then
+    match run_arg s' with
+    | Some ra => [[4; if ra_threads ra then 1 else 0; if ra_modules ra then 1 else 0]]
+    | None => [[4; -1; -1]]
+    end
+  else [].
+
+Definition delta (s s' : state) : list (list Z) := map enc_event (newest (trace s') (trace s)) ++ enc_flags s s'.
 
 Definition gate_pc (p : pc) : bool :=
   match p with
